@@ -73,7 +73,9 @@ WORDS = ['pass', 'word', 'love', 'monkey', 'dragon', 'secret', 'blue', 'test', '
          'straße', 'abcd', 'cat', 'ab', 'x', 'qwertyuiopasdfghjklzx']
 SYMBOLS = ['!', '@', '#', '$', '.', '-', '_', ' ', '  ', '€', '\U0001F600', ' ', '%', '&', '*', '?', '/', ':', ';', '<', '(', '"',
            # non-letters that str.lower()/upper() nevertheless change (circled letters, roman numerals: categories So / Nl)
-           '\u24b6', '\u24d0', '\u2167', '\u2177', '\u24c2\u24c2']
+           '\u24b6', '\u24d0', '\u2167', '\u2177', '\u24c2\u24c2',
+           # symbol runs that look like a comment marker or a blank once they are a line of a rules file (C03-r17)
+           '# ', '# #', '; ', '// ']
 UNIDIGITS = ['²', '٣', '５']
 SPECIAL = {
     'U0130': ['\u0130', 'a\u0130b', '\u0130stanbul'],          # lower() changes the length
